@@ -369,7 +369,7 @@ def rule_rest(ctx: Ctx) -> None:  # noqa: C901, PLR0915
         if f == "parallelization_mode":
             continue
         n += 1
-        ok = f in read or (ssc.dynamic() and ssc.mentions(f))  # read directly, or by name through a table of field names
+        ok = f in read or ssc.mentions(f)  # read on self, on self under another name in a helper, or by name through a table of field names
         ctx.tri("4-slurm", slurm, slurm.node, ok, not ok and not ssc.dynamic(), f"`{f}` is read when building the options", f"to_slurm_options never reads `{f}`: a set `{f}` is not mentioned",
                 f"fields are read by computed name and `{f}` is not named in the tables the function uses", key=f"emit {f}")
     ctx.floor("4-slurm", n, 8)
@@ -380,7 +380,7 @@ def rule_rest(ctx: Ctx) -> None:  # noqa: C901, PLR0915
     raises = sc.raises()
     ctx.add("5-validated", post, post.node, bool(raises), f"__post_init__ can reject ({len(raises)} raise site(s))" if raises else "__post_init__ never raises", key="raises")
     for f in ("cpus", "gpus", "nodes", "cpus_per_node", "memory", "time"):
-        ok = f in reads or f in consts or (sc.dynamic() and sc.mentions(f))
+        ok = f in reads or f in consts or sc.mentions(f)
         ctx.tri("5-validated", post, post.node, ok, not ok and not sc.dynamic(), f"`{f}` is examined at construction", f"__post_init__ never looks at `{f}`: invalid values are accepted",
                 f"fields are examined by computed name and `{f}` is not named in the tables used", key=f"examines {f}")
     # every test and, for nested ifs, the conjunction of enclosing tests
@@ -400,8 +400,11 @@ def rule_rest(ctx: Ctx) -> None:  # noqa: C901, PLR0915
     for f_ in sc.funcs:
         collect(f_.node.body, "", Defs(f_))
     for a, b, why in (("nodes", "cpus", "`nodes` and `cpus` together"), ("cpus_per_node", "nodes", "`cpus_per_node` without `nodes`")):
-        hit = any(re.search(rf"self\.{a}\b(?!_)", t) and re.search(rf"self\.{b}\b(?!_)", t) for t in tests)
-        ctx.add("5-validated", post, post.node, hit, f"{why} is tested and rejected" if hit else f"no rejecting condition relates self.{a} and self.{b}: {why} is accepted", key=f"exclusion {a}")
+        hit = any(re.search(rf"\b\w+\.{a}\b(?!_)", t) and re.search(rf"\b\w+\.{b}\b(?!_)", t) for t in tests)
+        # the same relation tested anywhere in the closure (e.g. in a generator of violation messages whose first item is raised)
+        anywhere = any(re.search(rf"\b\w+\.{a}\b(?!_)", norm(t_.test)) and re.search(rf"\b\w+\.{b}\b(?!_)", norm(t_.test)) for _f, t_ in sc.walk() if isinstance(t_, ast.If))
+        ctx.tri("5-validated", post, post.node, hit, not hit and not anywhere, f"{why} is tested and rejected", f"no condition relates self.{a} and self.{b}: {why} is accepted",
+                f"{why} is tested, but not as the direct guard of a raise", key=f"exclusion {a}")
     for fname, what in (("_is_valid_wall_time", "wall-time"), ("_convert_to_gb", "memory")):
         f = P.maybe_func(f"{MOD}.Resources.{fname}")
         nodes = _scope_nodes(ctx, f) if f is not None else []
